@@ -22,7 +22,7 @@ def families(run, rng, quick):
     out.append(("fallback", take(cs), "Trace_Fallback", "Trace_Fallback.cfg", {}))
     cs, _ = loadfam.gen_cases(run, "MC_Keys", "MC_Keys_quick.cfg")
     out.append(("keys", take(cs), "Trace_Keys", "Trace_Keys.cfg", {"SUPPRESS": "0"}))
-    oracle = plural_oracle(run, ["en", "fr", "ru", "ar", "pl", "ja", "cy", "ga", "lv", "he", "de"], ["0", "1", "2", "3", "5", "11", "21", "100", "1000000", "1.5"])
+    oracle = plural_oracle(run, ["en", "fr", "ru", "ar", "pl", "ja", "cy", "ga", "lv", "he", "de"], ["0", "1", "2", "3", "5", "11", "21", "100", "1000000", "1.5", "-1", "-2"])
     cs, _ = loadfam.gen_cases(run, "MC_FkFamilies", "MC_FkFamilies.cfg", workers=1)
     if quick:
         cs = [c for c in cs if c["family"] != "fk-arm-shapes"]       # one very large project: thorough tier only
